@@ -481,15 +481,20 @@ func (o *IndividualNodesCompareOptions) calculateWinners(a, b IndividualNodes, s
 
 	go func() {
 		similarities := IndividualComparisons{}
-		found := map[*IndividualNode]bool{}
+
+		// The same individual can be on both sides (a document that is
+		// compared with itself, or with a part of itself). Being matched on
+		// one side says nothing about the other side.
+		foundLeft := map[*IndividualNode]bool{}
+		foundRight := map[*IndividualNode]bool{}
 
 		// We have to collect all items before they can be sorted.
 		for similarity := range similarityResults {
 			// Remove any certain matches from the pool of possible winners.
 			if similarity.certainMatch {
 				winners <- similarity
-				found[similarity.Left] = true
-				found[similarity.Right] = true
+				foundLeft[similarity.Left] = true
+				foundRight[similarity.Right] = true
 				continue
 			}
 
@@ -511,18 +516,18 @@ func (o *IndividualNodesCompareOptions) calculateWinners(a, b IndividualNodes, s
 			}
 
 			// We can only proceed with a match if both sides are unmatched.
-			if found[s.Left] == true || found[s.Right] == true {
+			if foundLeft[s.Left] || foundRight[s.Right] {
 				continue
 			}
 
 			winners <- s
-			found[s.Left] = true
-			found[s.Right] = true
+			foundLeft[s.Left] = true
+			foundRight[s.Right] = true
 		}
 
 		// All of the remaining need to be added.
 		for _, left := range a {
-			if !found[left] {
+			if !foundLeft[left] {
 				winners <- &IndividualComparison{
 					Left: left,
 				}
@@ -530,7 +535,7 @@ func (o *IndividualNodesCompareOptions) calculateWinners(a, b IndividualNodes, s
 		}
 
 		for _, right := range b {
-			if !found[right] {
+			if !foundRight[right] {
 				winners <- &IndividualComparison{
 					Right: right,
 				}
